@@ -46,6 +46,14 @@ func mkEng(d ref.DT, e tensor.Engine, shape []int, vals []interface{}, lay strin
 	case "C":
 		rs = shape
 		view = ref.RootC(rs)
+	case "F": // contiguous column-major
+		if rank < 2 {
+			return nil, nil, nil, false
+		}
+		rs = shape
+		view = ref.RootF(rs)
+		root = d.MakeSlice(ref.Prod(rs))
+		t = tensor.New(tensor.WithShape(rs...), tensor.WithBacking(root), tensor.AsFortran(nil), tensor.WithEngine(e))
 	case "T":
 		if rank < 2 {
 			return nil, nil, nil, false
@@ -108,6 +116,7 @@ type c20obs struct {
 	class string
 	vals  []interface{}
 	ident string // which tensor was returned: fresh | a | b | dst
+	shape string // shape of the returned tensor
 	aAft  []interface{}
 	bAft  []interface{}
 	dAft  []interface{}
@@ -147,19 +156,30 @@ func c20Arith(d ref.DT, e tensor.Engine, op string, shape []int, la, lb, mode st
 	var D *tensor.Dense
 	var rootD interface{}
 	var opts []tensor.FuncOpt
-	needD := mode == "reuse" || mode == "incr" || op == "FMA" || op == "FMAScalar"
+	needD := mode == "reuse" || mode == "incr" || strings.HasPrefix(mode, "reuse:") || strings.HasPrefix(mode, "incr:") || op == "FMA" || op == "FMAScalar"
 	_ = needD
 	if needD {
 		dl := "C"
 		if strings.HasSuffix(mode, ":S") {
 			dl = "S"
 		}
-		D, rootD, _, ok = mkEng(d, e, shape, dv, dl)
+		ds := shape
+		if strings.HasSuffix(mode, ":rs") || mode == "fma:yrs" {
+			// a destination of the same size but another shape (the reversed one)
+			ds = rev(shape)
+			if ref.EqInts(ds, shape) {
+				return c20obs{}, false
+			}
+		}
+		if strings.HasSuffix(mode, ":F") {
+			dl = "F"
+		}
+		D, rootD, _, ok = mkEng(d, e, ds, dv, dl)
 		if !ok {
 			return c20obs{}, false
 		}
 	}
-	if mode == "mismatch" {
+	if mode == "mismatch" || mode == "fma:xrs" {
 		// operand b of the same size but another shape (the reversed one): a shape mismatch
 		rs := make([]int, len(shape))
 		for i := range shape {
@@ -180,6 +200,18 @@ func c20Arith(d ref.DT, e tensor.Engine, op string, shape []int, la, lb, mode st
 		opts = append(opts, tensor.WithReuse(A))
 	case mode == "reuse=b":
 		opts = append(opts, tensor.WithReuse(B))
+	case mode == "reuse=bv" || mode == "reuse=av":
+		// the destination is a DIFFERENT *Dense over the same storage as an operand (a whole-tensor view of it)
+		src := B
+		if mode == "reuse=av" {
+			src = A
+		}
+		v, err := src.Slice(nil)
+		if err != nil {
+			return c20obs{}, false
+		}
+		D = v.(*tensor.Dense)
+		opts = append(opts, tensor.WithReuse(D))
 	case strings.HasPrefix(mode, "reuse"):
 		opts = append(opts, tensor.WithReuse(D))
 	case strings.HasPrefix(mode, "incr"):
@@ -222,6 +254,7 @@ func c20Arith(d ref.DT, e tensor.Engine, op string, shape []int, la, lb, mode st
 			ob.class = "unreadable"
 		}
 		ob.vals = v
+		ob.shape = fmt.Sprint(rd.Shape())
 	}
 	return ob, true
 }
@@ -380,10 +413,21 @@ func runC20(r *core.Run) {
 						})
 					}
 				}
-				for _, op := range []string{"Add", "Sub", "Mul", "Div"} {
-					for _, mode := range []string{"reuse=a", "reuse=b", "mismatch"} {
-						for _, la := range lays {
-							for _, lb := range lays {
+				laysF := append(append([]string{}, lays...), "F")
+				for _, op := range []string{"Add", "Sub", "Mul", "Div", "FMA"} {
+					dmodes := []string{"reuse=a", "reuse=b", "reuse=av", "reuse=bv", "mismatch", "reuse:rs", "incr:rs", "reuse:F", "incr:F"}
+					if op == "FMA" {
+						dmodes = []string{"fma:xrs", "fma:yrs", "fma:F", "fma"}
+					}
+					for _, mode := range append(dmodes, "safe", "unsafe", "reuse", "incr") {
+						for _, la := range laysF {
+							for _, lb := range laysF {
+								if (mode == "safe" || mode == "unsafe" || mode == "reuse" || mode == "incr" || mode == "fma") && la != "F" && lb != "F" {
+									continue // judged against the reference model above
+								}
+								if op == "FMA" && (mode == "safe" || mode == "unsafe" || mode == "reuse" || mode == "incr") {
+									continue
+								}
 								es, d, shape, op, mode, la, lb := es, d, shape, op, mode, la, lb
 								id := fmt.Sprintf("C20|arith|%s|%s|%s|%s|%s|a=%s|b=%s", es.name, op, d.Name, shapeStr(shape), mode, la, lb)
 								if r.ReplayCase != "" && id != r.ReplayCase {
@@ -391,13 +435,13 @@ func runC20(r *core.Run) {
 								}
 								r.Case(id, n >= 2, func() *core.Fail {
 									tensor.VerifResetPools()
-									ob, ok := c20Arith(d, es.e, op, shape, la, lb, mode, av, bv, nil, nil)
+									ob, ok := c20Arith(d, es.e, op, shape, la, lb, mode, av, bv, dvv, nil)
 									if !ok {
 										r.Dim("skipped", "layout")
 										return nil
 									}
 									tensor.VerifResetPools()
-									std, _ := c20Arith(d, tensor.StdEng{}, op, shape, la, lb, mode, av, bv, nil, nil)
+									std, _ := c20Arith(d, tensor.StdEng{}, op, shape, la, lb, mode, av, bv, dvv, nil)
 									r.Op(2)
 									r.Outcome("arith-diff:" + es.name + ":" + ob.class + "/" + std.class)
 									if (ob.class == "ok") != (std.class == "ok") {
@@ -412,11 +456,17 @@ func runC20(r *core.Run) {
 									if std.ident != ob.ident {
 										return core.F("config-divergence", "ident", "%s returns the %s tensor, StdEng the %s tensor", es.name, ob.ident, std.ident)
 									}
+									if std.shape != ob.shape {
+										return core.F("config-divergence", "shape", "%s %s mode %s layouts %s,%s: %s returns shape %s, StdEng %s", op, d.Name, mode, la, lb, es.name, ob.shape, std.shape)
+									}
 									if !sameVals(std.vals, ob.vals) {
 										return core.F("config-divergence", "values", "%s %s mode %s layouts %s,%s: %s delivers %s, StdEng %s", op, d.Name, mode, la, lb, es.name, ref.FmtEls(ob.vals), ref.FmtEls(std.vals))
 									}
 									if !sameVals(std.aAft, ob.aAft) || !sameVals(std.bAft, ob.bAft) {
 										return core.F("config-divergence", "operands", "%s leaves the operands in a different state than StdEng", es.name)
+									}
+									if !sameVals(std.dAft, ob.dAft) {
+										return core.F("config-divergence", "dest", "%s %s mode %s layouts %s,%s: %s leaves the destination's storage in a different state than StdEng: %s vs %s", op, d.Name, mode, la, lb, es.name, ref.FmtEls(ob.dAft), ref.FmtEls(std.dAft))
 									}
 									return nil
 								})
